@@ -230,16 +230,56 @@ func (w *c19world) inRemoved(ip netip.Addr, a uint64) bool {
 	return false
 }
 
-// overlappingOps: some successful add and remove of a dynamic route containing ip ran concurrently.
-func (w *c19world) overlappingOps(ip netip.Addr) bool {
-	for i, a := range w.ops {
-		for _, b := range w.ops[i+1:] {
-			if a.pfx == b.pfx && a.pfx.Contains(ip) && a.ok && b.ok && a.action != b.action && a.inv <= b.ret && b.inv <= a.ret {
-				return true
+// removedKind describes the history of the removed dynamic route(s) containing ip
+// (part of the violation signature: different histories point at different causes).
+func (w *c19world) removedKind(ip netip.Addr, a uint64) string {
+	readded, overlapped := false, false
+	for _, p := range w.dynPrefixes() {
+		if !p.Contains(ip) {
+			continue
+		}
+		gone := false
+		for _, iv := range w.presence(p) {
+			if iv[1] < a {
+				gone = true
+			}
+		}
+		if !gone {
+			continue
+		}
+		adds := 0
+		var mine []c19op
+		for _, op := range w.ops {
+			if op.pfx != p || !op.ok {
+				continue
+			}
+			mine = append(mine, op)
+			if op.action == "add" {
+				adds++
+				if adds >= 2 {
+					readded = true
+				}
+			} else {
+				adds = 0
+			}
+		}
+		for i, x := range mine {
+			for _, y := range mine[i+1:] {
+				if x.action != y.action && x.inv <= y.ret && y.inv <= x.ret {
+					overlapped = true
+				}
 			}
 		}
 	}
-	return false
+	switch {
+	case readded && !overlapped:
+		return " (the route had been added again while present, then removed once)"
+	case overlapped && !readded:
+		return " (its add and remove requests overlapped in time)"
+	case overlapped && readded:
+		return " (re-added while present and overlapping add/remove requests)"
+	}
+	return ""
 }
 
 func (w *c19world) nothingPermitted(a, b uint64) bool {
@@ -345,10 +385,7 @@ func (w *c19world) checkDials() {
 		detail := fmt.Sprintf("exit %s dialled %s (err=%q) for request %s; configured nets=%v domains=%v enabled=%v; route history=%s", exName, d.Address, d.Err, w.reqStr(first), w.cfgCIDRs, w.cfgDomains, w.enabled, w.opsStr())
 		switch {
 		case ip.IsValid() && w.inRemoved(ip, from):
-			if w.overlappingOps(ip) {
-				simrt.Failf("dial-into-removed-route", "exit dialled into a dynamic route that had been removed (its add and remove requests overlapped in time)", "(%s) %s", form, detail)
-			}
-			simrt.Failf("dial-into-removed-route", "exit dialled into a dynamic route that had been removed", "(%s) %s", form, detail)
+			simrt.Failf("dial-into-removed-route", "exit dialled into a dynamic route that had been removed"+w.removedKind(ip, from), "(%s) %s", form, detail)
 		case w.nothingPermitted(from, d.Seq):
 			simrt.Failf("dial-with-nothing-permitted", "exit dialled although no network, route or pattern was configured ("+form+")", "%s", detail)
 		default:
@@ -851,15 +888,21 @@ func (w *c19world) doOpPair(p1, p2 *opPlan) {
 			simrt.Probe("c19_concurrent_add_remove_same_route")
 		}
 	default:
-		// answers no sequential order explains: not this property's business; stay permissive
-		simrt.Probe("c19_concurrent_ops_unexplained")
-		w.anyUnknown = true
+		// answers no sequential order explains (possible after an earlier pair whose order
+		// is unknown): not this property's business; stay permissive
+		if w.ambig[o1.pfx] || w.ambig[o2.pfx] {
+			simrt.Probe("c19_concurrent_ops_after_ambiguous_order")
+		} else {
+			simrt.Probe("c19_concurrent_ops_unexplained")
+			w.anyUnknown = true
+		}
 		for _, op := range []c19op{o1, o2} {
 			if op.action == "add" {
 				op.unknown = true
 				w.ops = append(w.ops, op)
 			}
 		}
+		w.ambig[o1.pfx], w.ambig[o2.pfx] = true, true
 		return
 	}
 	w.recordOp(pick.order[0])
